@@ -344,8 +344,15 @@ pub struct MState {
     pub terms: Vec<Tm>,
     pub effective_unions: usize,
     pub rewrites_changed: usize,
+    /// rewrite steps not executed because the e-graph already had more than REWRITE_NODE_CAP e-nodes
+    pub rewrites_skipped: usize,
     pub step: usize,
 }
+
+/// Bound on generated size: a rewrite step of a generated history is only executed while the e-graph has at most this
+/// many e-nodes (rule sets like beta / let-distribution multiply the size with every step; a handful of steps on a
+/// large e-graph runs for minutes).  Part of the case's meaning, the same in every run of the case.
+pub const REWRITE_NODE_CAP: usize = 600;
 
 pub fn new_egraph<L: Language + 'static, N: Analysis<L> + 'static>(n: N, extraction_subst: bool) -> EGraph<L, N> {
     if extraction_subst {
@@ -362,7 +369,7 @@ pub fn drive<L: Language + 'static, N: Analysis<L> + 'static>(
     after: &mut dyn FnMut(&mut EGraph<L, N>, &MState, &MOp) -> Result<(), String>,
 ) -> Result<MState, String> {
     let pool = rule_pool(case.lang);
-    let mut st = MState { handles: Vec::new(), terms: Vec::new(), effective_unions: 0, rewrites_changed: 0, step: 0 };
+    let mut st = MState { handles: Vec::new(), terms: Vec::new(), effective_unions: 0, rewrites_changed: 0, rewrites_skipped: 0, step: 0 };
     for (step, op) in case.ops.iter().enumerate() {
         st.step = step;
         match op {
@@ -383,6 +390,9 @@ pub fn drive<L: Language + 'static, N: Analysis<L> + 'static>(
                         st.effective_unions += 1;
                     }
                 }
+            }
+            MOp::Rewrite(_) if eg.total_number_of_nodes() > REWRITE_NODE_CAP => {
+                st.rewrites_skipped += 1;
             }
             MOp::Rewrite(rs) => {
                 let rules: Vec<Rewrite<L, N>> = rs
